@@ -4,6 +4,11 @@
     applied twice by the real `decl.apply`; the object tree below the instruction's parent after the first
     and after the second run is compared with `Model/DeclSync.v: w_sync2`; independent oracle: the serialised
     XML of every tree after run 2 equals that after run 1 byte for byte.
+(a') sync lists of every length 1..4 in which EACH position in turn holds an entry that has to wait for a promise declared
+    later (in a `set` value, in a find key, in nested sync one and two levels down, in nested extend; declared by a later
+    instruction, by a later entry of the enclosing list, or - control - earlier), mixed with entries that match existing
+    objects and entries that create; oracle on the raw XML: after run 1 every entry's object exists exactly once and the
+    waiting one refers to the promised object, run 2 raises nothing and changes nothing (`promise_matrix`).
 (b) generated instruction streams / metadata blocks: the node graph of YDMDumper, the constructor of
     YDMLoader on composed nodes (also malformed ones) and the document layout are compared with
     `Model/DeclYaml.v`; oracle: load(dump(x)) == x.
@@ -978,6 +983,13 @@ def run(chk: lib.Check):
     chk.correspond("From V Require Import Model.DeclYaml.", "w_load_stream", load_cases, tag="C13_load", shard=120)
     chk.correspond("From V Require Import Model.DeclYaml.", "w_dump_stream", dump_cases, tag="C13_dump", shard=120)
     chk.correspond("From V Require Import Model.DeclYaml.", "w_is_uuid", ucases, tag="C13_uuid")
+    chk.coverage["rule_waiting_entries"] = (
+        "sync lists of length 1..4 x waiting position (every one) x 9 kinds of waiting (set value / find key on a property list, "
+        "find key / link-valued set / nested sync with set or find key / nested extend on a class list, the same two levels down on "
+        "a package list) x promise declared by a later instruction / a later entry of the enclosing list / earlier x waiting "
+        "entry's object new / existing = %d combinations, all of them on empty52, a seeded sample of 270 on each other model in the "
+        "quick tier; the other entries match / create / create+set at random, now and then a second waiting entry"
+        % len(list(pm_combos())))
     chk.coverage["rule"] = ("(a) %d generated sync documents (1-3 entries per list, nesting <= 3, found/created mix, names from a pool of "
                             "%d nasty strings) applied twice on %s; (b) %d generated streams + metadata blocks through represent / "
                             "compose / construct / load, %d hand-written malformed node graphs" % (
@@ -986,7 +998,8 @@ def run(chk: lib.Check):
         "PyYAML's text layer (emitter, scanner, resolver, standard scalar constructors) is a stand-in: hypothesis yaml_rt of "
         "dump_load_roundtrip_partial, sampled by the w_dump_stream correspondence (compose(dump(x)) = represent(x))",
         "attribute values read back as written (C07) is assumed by the sync model; `description` (HTML) violates it for & < > quotes",
-        "sync documents with promises, find keys that `set` overrides, `extend`, delete are outside the sync model (oracle streams only)",
+        "sync documents with promises, find keys that `set` overrides, `extend`, delete are outside the sync model (oracle streams "
+        "only: the waiting-entry matrix counts every entry's object in the raw XML after each run)",
         "mappings are association lists; PyYAML's sorting of mapping pairs is invisible to dict equality",
     ]
 
